@@ -227,12 +227,7 @@ def lbStep (d : LBqm Rat) (view : VT) (old : Bool) (op : List String) : LBqm Rat
     | some u, some v, some b =>
       if view = d.vt then
         -- `pyBQM.set_quadratic` / cyBQM: checked first, then both variables added
-        if u = v then lbExc d (.error .value) else
-        let d1 := (d.addVariable u).addVariable v
-        let nu := ((d1.adj.get? u).getD []).set v b
-        let adj := d1.adj.set u nu
-        let adj := adj.set v (((adj.get? v).getD []).set u b)
-        lbFin d ({ d1 with adj }, none)
+        lbExc d (d.setQuadratic u v b)
       else lbFin d (View.setQuadratic T view d u v b)
     | _, _, _ => bad
   | ["addvar", v, b] => match parseLabel? v, parseRat? b with
